@@ -1,7 +1,666 @@
-//! C46 — not built yet.
-use lv_common::Ctx;
+//! C46 — Public data types round-trip through their wire and JSON forms (celestia-types part; BlockRanges is
+//! covered in lv-node).
+//!
+//! Values are produced by the public constructors of the crate from generated chains / squares
+//! (`lv_gen::chain`, `lv_gen::square`): headers are sealed multi-validator headers, proofs are the proofs the
+//! library itself produces for generated squares. Oracle, per value x:
+//!   protobuf:  decode(encode(x)) == x  and  encode(decode(encode(x))) == encode(x)
+//!   JSON:      from_str(to_string(x)) == x, from_value(to_value(x)) == x, and to_string is stable.
+//! Types whose decoder needs an id (Sample, Row, RowNamespaceData, NamespaceData) are decoded under the id
+//! they were produced for. Parity shares are excepted from the bare `Share` JSON/wire form (no parity flag).
+use bytes::BytesMut;
+use celestia_proto::share::eds::byzantine::pb::{BadEncoding as RawBefp, Share as RawShareWithProof};
+use celestia_proto::shwap::RowNamespaceData as RawRowNamespaceData;
+use celestia_types::consts::appconsts::AppVersion;
+use celestia_types::fraud_proof::{BadEncodingFraudProof, Proof as FraudProofEnum};
+use celestia_types::namespace_data::{NamespaceData, NamespaceDataId};
+use celestia_types::nmt::{Namespace, NamespaceProof, NamespacedHash};
+use celestia_types::row::{Row, RowId};
+use celestia_types::row_namespace_data::{RowNamespaceData, RowNamespaceDataId};
+use celestia_types::sample::{Sample, SampleId};
+use celestia_types::state::AccAddress;
+use celestia_types::{AxisType, Blob, DataAvailabilityHeader, ExtendedHeader, MerkleProof, RowProof, Share, ShareProof};
+use lv_common::prelude::*;
+use lv_gen::chain::{ChainSpec, build_chain, chain_strategy};
+use lv_gen::square::{SquareSpec, build_square, square_strategy, user_ns};
+use prost::Message;
+use serde::de::DeserializeOwned;
+use tendermint_proto::Protobuf;
 
-pub fn run(_ctx: &mut Ctx) {
-    eprintln!("C46: check not built yet");
-    std::process::exit(2);
+#[derive(Clone, Debug, Serialize, Deserialize)]
+pub struct BlobSpec {
+    pub ns_key: u16,
+    /// raw 10-byte v0 id used instead of ns_key when Some
+    pub ns_raw: Option<[u8; 10]>,
+    pub len: u32,
+    pub seed: u64,
+    pub signer: Option<[u8; 20]>,
+    pub index: Option<u64>,
+    pub app: u8,
+}
+
+#[derive(Clone, Debug, Serialize, Deserialize)]
+pub struct BefpSpec {
+    pub col_axis: bool,
+    pub index: u16,
+    /// bit j: share j of the axis is present (extended with `seed` for wide squares)
+    pub present_seed: u64,
+    /// bit j: share j is proven against the orthogonal axis
+    pub ortho_seed: u64,
+    pub header_hash: [u8; 32],
+    pub height: u64,
+}
+
+#[derive(Clone, Debug, Serialize, Deserialize)]
+pub struct Case {
+    pub chain: ChainSpec,
+    pub square: SquareSpec,
+    pub sel: Vec<u16>,
+    pub blob: BlobSpec,
+    pub merkle_leaves: u8,
+    pub merkle_seed: u64,
+    pub befp: BefpSpec,
+    pub height: u64,
+}
+
+fn blob_strategy() -> impl Strategy<Value = BlobSpec> {
+    (
+        any::<u16>(),
+        prop::option::weighted(0.3, any::<[u8; 10]>()),
+        prop_oneof![
+            2 => 0u32..4,
+            2 => 470u32..486,
+            2 => 450u32..470,
+            1 => 950u32..970,
+            3 => 0u32..3000,
+            1 => 3000u32..20000,
+        ],
+        any::<u64>(),
+        prop::option::weighted(0.5, any::<[u8; 20]>()),
+        prop_oneof![
+            3 => Just(None),
+            1 => Just(Some(0u64)),
+            1 => Just(Some(i64::MAX as u64)),
+            2 => (0u64..=i64::MAX as u64).prop_map(Some),
+            1 => (0u64..100_000).prop_map(Some),
+        ],
+        1u8..=7,
+    )
+        .prop_map(|(ns_key, ns_raw, len, seed, signer, index, app)| BlobSpec { ns_key, ns_raw, len, seed, signer, index, app })
+}
+
+fn befp_strategy() -> impl Strategy<Value = BefpSpec> {
+    (
+        any::<bool>(),
+        any::<u16>(),
+        prop_oneof![Just(u64::MAX), any::<u64>()],
+        prop_oneof![Just(0u64), Just(u64::MAX), any::<u64>()],
+        any::<[u8; 32]>(),
+        prop_oneof![Just(1u64), 1u64..1_000_000, 1u64..=i64::MAX as u64],
+    )
+        .prop_map(|(col_axis, index, present_seed, ortho_seed, header_hash, height)| BefpSpec { col_axis, index, present_seed, ortho_seed, header_hash, height })
+}
+
+fn tag(name: &str) -> u64 {
+    digest_bytes(name.as_bytes())
+}
+
+/// protobuf round trip through tendermint_proto::Protobuf
+fn rt_proto<T, R>(obs: &mut Obs, name: &str, x: &T) -> Result<(), Failure>
+where
+    T: Protobuf<R> + PartialEq + std::fmt::Debug,
+    R: Message + From<T> + Default,
+    <T as TryFrom<R>>::Error: std::fmt::Display,
+{
+    let bytes = x.clone().encode_vec();
+    obs.eval(Some(digest_bytes(&bytes) ^ tag(name)));
+    obs.label(&format!("{name}-proto"));
+    match T::decode_vec(&bytes) {
+        Ok(y) => {
+            obs.check(y == *x, &format!("C46:{name}:proto-roundtrip"), || format!("{name}: decode(encode(x)) != x\n x = {x:?}\n y = {y:?}"))?;
+            let again = y.encode_vec();
+            obs.check(again == bytes, &format!("C46:{name}:proto-reencode-unstable"), || format!("{name}: re-encoding differs ({} vs {} bytes)", again.len(), bytes.len()))?;
+        }
+        Err(e) => obs.fail(&format!("C46:{name}:proto-roundtrip"), format!("{name}: decode(encode(x)) failed: {e}\n x = {x:?}"))?,
+    }
+    Ok(())
+}
+
+/// JSON round trip: string form, Value form, stability
+fn rt_json<T>(obs: &mut Obs, name: &str, x: &T) -> Result<(), Failure>
+where
+    T: Serialize + DeserializeOwned + PartialEq + std::fmt::Debug,
+{
+    let s = match serde_json::to_string(x) {
+        Ok(s) => s,
+        Err(e) => return obs.fail(&format!("C46:{name}:json-roundtrip"), format!("{name}: to_string failed: {e}\n x = {x:?}")),
+    };
+    obs.eval(Some(digest_bytes(s.as_bytes()) ^ tag(name) ^ 0x150));
+    obs.label(&format!("{name}-json"));
+    match serde_json::from_str::<T>(&s) {
+        Ok(y) => {
+            obs.check(y == *x, &format!("C46:{name}:json-roundtrip"), || format!("{name}: from_str(to_string(x)) != x\n json = {s}\n x = {x:?}\n y = {y:?}"))?;
+            let again = serde_json::to_string(&y).unwrap_or_default();
+            obs.check(again == s, &format!("C46:{name}:json-reencode-unstable"), || format!("{name}: JSON re-encoding differs\n first  = {s}\n second = {again}"))?;
+        }
+        Err(e) => obs.fail(&format!("C46:{name}:json-roundtrip"), format!("{name}: from_str(to_string(x)) failed: {e}\n json = {s}"))?,
+    }
+    match serde_json::to_value(x) {
+        Ok(v) => match serde_json::from_value::<T>(v) {
+            Ok(y) => obs.check(y == *x, &format!("C46:{name}:json-value-roundtrip"), || format!("{name}: from_value(to_value(x)) != x\n x = {x:?}\n y = {y:?}"))?,
+            Err(e) => obs.fail(&format!("C46:{name}:json-value-roundtrip"), format!("{name}: from_value(to_value(x)) failed: {e}\n json = {s}"))?,
+        },
+        Err(e) => obs.fail(&format!("C46:{name}:json-value-roundtrip"), format!("{name}: to_value failed: {e}"))?,
+    }
+    Ok(())
+}
+
+fn succ(ns: &Namespace) -> Option<Namespace> {
+    let mut b: [u8; 29] = ns.as_bytes().try_into().unwrap();
+    if b[28] == 0xff {
+        return None;
+    }
+    b[28] += 1;
+    Namespace::from_raw(&b).ok()
+}
+
+/// The "empty" absence proof (namespace outside the tree's range: no siblings, empty range, no leaf) has a
+/// single root cause when it fails to round trip: the wire form cannot tell it from a presence proof of an
+/// empty range and the decoder picks the latter. Reported under one signature for every form.
+fn check_empty_absence(obs: &mut Obs, p: &NamespaceProof, ctx: Option<(&NamespacedHash, Namespace)>) -> Result<(), Failure> {
+    const SIG: &str = "C46:empty-absence-proof-decodes-as-presence";
+    let describe = |form: &str, y: &NamespaceProof| {
+        format!(
+            "absence proof of a namespace outside the tree range does not survive the {form} form: x = {p:?} decodes to y = {y:?} (is_of_absence {} -> {})",
+            p.is_of_absence(),
+            y.is_of_absence()
+        )
+    };
+    let same_but_kind = |y: &NamespaceProof| !y.is_of_absence() && y.siblings() == p.siblings() && y.start_idx() == p.start_idx() && y.end_idx() == p.end_idx() && y.max_ns_ignored() == p.max_ns_ignored();
+    // protobuf
+    let bytes = p.clone().encode_vec();
+    obs.eval(Some(digest_bytes(&bytes) ^ tag("nsproof-absence-out-of-range")));
+    obs.label("nsproof-absence-out-of-range-proto");
+    match NamespaceProof::decode_vec(&bytes) {
+        Ok(y) if y == *p => {}
+        Ok(y) if same_but_kind(&y) => {
+            // record what the difference means for verification (observation only)
+            if let Some((root, ns)) = ctx {
+                let none: Vec<Vec<u8>> = Vec::new();
+                let before = p.verify_complete_namespace(root, &none, *ns);
+                let after = y.verify_complete_namespace(root, &none, *ns);
+                obs.note(format!("empty absence proof: verify_complete_namespace(root, no leaves, ns) is {before:?} on the original and {after:?} on the decoded value"));
+            }
+            obs.fail(SIG, describe("protobuf", &y))?
+        }
+        Ok(y) => obs.fail("C46:nsproof-absence-out-of-range:proto-roundtrip", describe("protobuf", &y))?,
+        Err(e) => obs.fail("C46:nsproof-absence-out-of-range:proto-roundtrip", format!("decode(encode(x)) failed: {e}; x = {p:?}"))?,
+    }
+    // JSON
+    let s = serde_json::to_string(p).map_err(|e| Failure::new("C46:nsproof-absence-out-of-range:json-roundtrip", e.to_string()))?;
+    obs.eval(Some(digest_bytes(s.as_bytes()) ^ tag("nsproof-absence-out-of-range") ^ 0x150));
+    obs.label("nsproof-absence-out-of-range-json");
+    match serde_json::from_str::<NamespaceProof>(&s) {
+        Ok(y) if y == *p => {}
+        Ok(y) if same_but_kind(&y) => obs.fail(SIG, describe("JSON", &y))?,
+        Ok(y) => obs.fail("C46:nsproof-absence-out-of-range:json-roundtrip", describe("JSON", &y))?,
+        Err(e) => obs.fail("C46:nsproof-absence-out-of-range:json-roundtrip", format!("from_str(to_string(x)) failed: {e}; json = {s}"))?,
+    }
+    Ok(())
+}
+
+fn check_ns_proof(obs: &mut Obs, p: &NamespaceProof, ctx: Option<(&NamespacedHash, Namespace)>) -> Result<(), Failure> {
+    let class = if p.is_of_absence() {
+        if p.leaf().is_some() { "nsproof-absence-in-range" } else { "nsproof-absence-out-of-range" }
+    } else if p.start_idx() == p.end_idx() {
+        "nsproof-presence-empty-range"
+    } else {
+        "nsproof-presence"
+    };
+    obs.label(class);
+    if class == "nsproof-absence-out-of-range" {
+        return check_empty_absence(obs, p, ctx);
+    }
+    rt_proto(obs, class, p)?;
+    rt_json(obs, class, p)?;
+    Ok(())
+}
+
+pub fn run(ctx: &mut Ctx) {
+    ctx.assume("values are generated through the crate's own constructors from lv_gen chains/squares (valid by construction); equality is the types' own PartialEq");
+    ctx.assume("BlockRanges is checked in lv-node; postcard/binary serde forms are not exercised");
+    ctx.assume("Blob's protobuf form has no index/commitment field: the wire round trip is asserted for index = None and modulo index otherwise");
+    ctx.essential(&[
+        "header-proto",
+        "header-json",
+        "dah-proto",
+        "dah-json",
+        "blob-proto",
+        "blob-json",
+        "blob-with-signer",
+        "blob-index-some",
+        "share-json",
+        "share-proto",
+        "parity-share-excepted",
+        "namespace-json",
+        "nsproof-presence-proto",
+        "nsproof-presence-json",
+        "nsproof-absence-in-range-proto",
+        "nsproof-absence-in-range-json",
+        "nsproof-absence-out-of-range-proto",
+        "nsproof-absence-out-of-range-json",
+        "rowproof-proto",
+        "rowproof-json",
+        "shareproof-proto",
+        "shareproof-json",
+        "shareproof-multi-row",
+        "merkleproof-proto",
+        "merkleproof-json",
+        "befp-proto",
+        "befp-with-missing-shares",
+        "fraudproof-json",
+        "rownsdata-wire",
+        "rownsdata-json",
+        "nsdata-json",
+        "nsdata-wire",
+        "sample-wire",
+        "row-wire",
+    ]);
+    let max_log2 = ctx.tier.pick(3, 5);
+    let cases = ctx.tier.pick(3000, 40_000);
+    ctx.proptest(
+        "values",
+        "per case: a generated chain (1-2 sealed headers, 1-6 validators, rotation, Commit/Nil/Absent votes, squares), a generated square (ODS 1..8 wide quick, ..32 thorough), a blob (len 0..20000, boundary lengths, with/without signer, index None/0/i64::MAX/random), a merkle proof (1..=40 leaves), a BEFP built from the square (row/col axis, missing shares, per-share proof axis). Every value of every listed type goes through protobuf and JSON round trips. Non-trivial = every evaluated value (distinct by its encoding and type)",
+        cases,
+        move || {
+            (
+                chain_strategy(1..=2, 6, true, true),
+                square_strategy(0, max_log2),
+                prop::collection::vec(any::<u16>(), 12),
+                blob_strategy(),
+                1u8..=40,
+                any::<u64>(),
+                befp_strategy(),
+                prop_oneof![Just(1u64), 1u64..100_000, 1u64..=u64::MAX],
+            )
+                .prop_map(|(chain, square, sel, blob, merkle_leaves, merkle_seed, befp, height)| Case { chain, square, sel, blob, merkle_leaves, merkle_seed, befp, height })
+        },
+        |c, obs| {
+            let gen_err = |what: &str, e: &dyn std::fmt::Display| Failure::new("gen", format!("generator: {what}: {e}"));
+            // ------------------------------------------------------------ headers, DAHs
+            let chain = build_chain(&c.chain);
+            for h in &chain.headers {
+                if let Err(e) = h.validate() {
+                    return Err(gen_err("generated header does not validate", &e));
+                }
+                rt_proto::<ExtendedHeader, _>(obs, "header", h)?;
+                rt_json(obs, "header", h)?;
+                if h.commit.signatures.iter().any(|s| matches!(s, tendermint::block::CommitSig::BlockIdFlagAbsent)) {
+                    obs.label("header-with-absent-vote");
+                }
+                if h.commit.signatures.iter().any(|s| matches!(s, tendermint::block::CommitSig::BlockIdFlagNil { .. })) {
+                    obs.label("header-with-nil-vote");
+                }
+                rt_proto::<DataAvailabilityHeader, _>(obs, "dah", &h.dah)?;
+                rt_json(obs, "dah", &h.dah)?;
+            }
+
+            // ------------------------------------------------------------ square derived values
+            let app = lv_gen::chain::app_version_of(c.chain.app_version);
+            let sq = build_square(&c.square, app);
+            let eds = &sq.eds;
+            let dah = &sq.dah;
+            let w = eds.square_width();
+            let k = w / 2;
+            rt_proto::<DataAvailabilityHeader, _>(obs, "dah", dah)?;
+            rt_json(obs, "dah", dah)?;
+            let s = |i: usize| c.sel[i % c.sel.len()];
+
+            // shares: bare Share form for ODS shares, parity excepted
+            for i in 0..4 {
+                let (r, col) = (pick(s(i), k as usize) as u16, pick(s(i + 4), k as usize) as u16);
+                let sh = eds.share(r, col).map_err(|e| gen_err("share", &e))?.clone();
+                if sh.is_parity() {
+                    return Err(Failure::new("gen", "ODS share flagged parity"));
+                }
+                rt_json(obs, "share", &sh)?;
+                // wire form of a bare share
+                let raw = celestia_proto::shwap::Share::from(sh.clone());
+                let bytes = raw.encode_to_vec();
+                obs.eval(Some(digest_bytes(&bytes) ^ tag("share")));
+                obs.label("share-proto");
+                match celestia_proto::shwap::Share::decode(&bytes[..]).map_err(|e| e.to_string()).and_then(|r| Share::try_from(r).map_err(|e| e.to_string())) {
+                    Ok(y) => obs.check(y == sh, "C46:share:proto-roundtrip", || format!("share ({r},{col}) wire round trip differs"))?,
+                    Err(e) => obs.fail("C46:share:proto-roundtrip", format!("share ({r},{col}) wire round trip failed: {e}"))?,
+                }
+                rt_json(obs, "namespace", &sh.namespace())?;
+            }
+            {
+                // a parity share: excepted, only observed
+                let (r, col) = (k + pick(s(2), k as usize) as u16, pick(s(3), w as usize) as u16);
+                let sh = eds.share(r, col).map_err(|e| gen_err("share", &e))?.clone();
+                obs.eval(None);
+                obs.label("parity-share-excepted");
+                let js = serde_json::to_string(&sh).unwrap_or_default();
+                match serde_json::from_str::<Share>(&js) {
+                    Ok(y) if y == sh => obs.label("parity-share-json-equal"),
+                    Ok(_) => obs.label("parity-share-json-loses-flag"),
+                    Err(_) => obs.label("parity-share-json-rejected"),
+                }
+            }
+            for ns in [Namespace::TRANSACTION, Namespace::PAY_FOR_BLOB, Namespace::TAIL_PADDING, Namespace::PARITY_SHARE, Namespace::MAX_PRIMARY_RESERVED, user_ns(s(5))] {
+                rt_json(obs, "namespace", &ns)?;
+            }
+
+            // samples and rows (decoded under their ids)
+            for i in 0..3 {
+                let (r, col) = (pick(s(i + 1), w as usize) as u16, pick(s(i + 6), w as usize) as u16);
+                for axis in [AxisType::Row, AxisType::Col] {
+                    let id = SampleId::new(r, col, c.height).map_err(|e| gen_err("SampleId", &e))?;
+                    let x = Sample::new(r, col, axis, eds).map_err(|e| gen_err("Sample::new", &e))?;
+                    let mut buf = BytesMut::new();
+                    x.encode(&mut buf);
+                    obs.eval(Some(digest_bytes(&buf) ^ tag("sample")));
+                    obs.label("sample-wire");
+                    match Sample::decode(id, &buf) {
+                        Ok(y) => {
+                            obs.check(y.share == x.share && y.proof == x.proof && y.proof_type == x.proof_type, "C46:sample:proto-roundtrip", || {
+                                format!("sample ({r},{col}) {axis:?} of width {w}: decode(encode(x)) differs: parity {} -> {}", x.share.is_parity(), y.share.is_parity())
+                            })?;
+                            let mut again = BytesMut::new();
+                            y.encode(&mut again);
+                            obs.check(again == buf, "C46:sample:proto-reencode-unstable", || "sample re-encoding differs".to_string())?;
+                        }
+                        Err(e) => obs.fail("C46:sample:proto-roundtrip", format!("sample ({r},{col}) {axis:?} width {w}: decode(encode(x)) failed: {e}"))?,
+                    }
+                }
+                let id = RowId::new(r, c.height).map_err(|e| gen_err("RowId", &e))?;
+                let x = Row::new(r, eds).map_err(|e| gen_err("Row::new", &e))?;
+                let mut buf = BytesMut::new();
+                x.encode(&mut buf);
+                obs.eval(Some(digest_bytes(&buf) ^ tag("row")));
+                obs.label("row-wire");
+                match Row::decode(id, &buf) {
+                    Ok(y) => obs.check(y.shares == x.shares, "C46:row:proto-roundtrip", || format!("row {r} of width {w}: decode(encode(x)) differs"))?,
+                    Err(e) => obs.fail("C46:row:proto-roundtrip", format!("row {r} of width {w}: decode(encode(x)) failed: {e}"))?,
+                }
+            }
+
+            // namespace proofs: what the row/column trees produce
+            {
+                let r = pick(s(0), k as usize) as u16;
+                let mut tree = eds.row_nmt(r).map_err(|e| gen_err("row_nmt", &e))?;
+                let row_ns: Vec<Namespace> = (0..k).map(|col| eds.share(r, col).unwrap().namespace()).collect();
+                let mut cands: Vec<Namespace> = Vec::new();
+                for n in &row_ns {
+                    if !cands.contains(n) {
+                        cands.push(*n);
+                        if let Some(x) = succ(n) {
+                            cands.push(x);
+                        }
+                    }
+                }
+                cands.push(user_ns(s(1)));
+                cands.push(Namespace::const_v0([0; 10]));
+                cands.push(Namespace::PARITY_SHARE);
+                cands.push(Namespace::TAIL_PADDING);
+                let root = tree.root();
+                for n in cands {
+                    let p: NamespaceProof = tree.get_namespace_proof(*n).into();
+                    check_ns_proof(obs, &p, Some((&root, n)))?;
+                }
+                // arbitrary ranges of row and column trees
+                let (a, b) = (pick(s(2), w as usize), pick(s(3), w as usize));
+                let (a, b) = (a.min(b), a.max(b) + 1);
+                let p: NamespaceProof = tree.get_range_with_proof(a..b).1.into();
+                check_ns_proof(obs, &p, None)?;
+                let mut ctree = eds.column_nmt(pick(s(4), w as usize) as u16).map_err(|e| gen_err("column_nmt", &e))?;
+                let p: NamespaceProof = ctree.get_range_with_proof(a..b).1.into();
+                check_ns_proof(obs, &p, None)?;
+            }
+
+            // row proofs
+            {
+                let (a, b) = (pick(s(6), w as usize) as u16, pick(s(7), w as usize) as u16);
+                for (a, b) in [(a.min(b), a.max(b)), (0, w - 1), (a, a)] {
+                    let p = dah.row_proof(a..=b).map_err(|e| gen_err("row_proof", &e))?;
+                    if p.verify(dah.hash()).is_err() {
+                        obs.label("rowproof-does-not-verify");
+                    }
+                    rt_proto::<RowProof, _>(obs, "rowproof", &p)?;
+                    rt_json(obs, "rowproof", &p)?;
+                }
+            }
+
+            // share proofs
+            {
+                // every ODS share in row-major order with its namespace
+                let ods: Vec<(u16, u16, Namespace)> = (0..k).flat_map(|r| (0..k).map(move |col| (r, col))).map(|(r, col)| (r, col, eds.share(r, col).unwrap().namespace())).collect();
+                let at = pick(s(8), ods.len());
+                let ns = ods[at].2;
+                let first = ods.iter().position(|x| x.2 == ns).unwrap();
+                let last = ods.iter().rposition(|x| x.2 == ns).unwrap();
+                let (x, y) = (first + pick(s(9), last - first + 1), first + pick(s(10), last - first + 1));
+                let (a, b) = (x.min(y), x.max(y) + 1);
+                let (r0, r1) = (ods[a].0, ods[b - 1].0);
+                let mut share_proofs: Vec<NamespaceProof> = Vec::new();
+                let mut data = Vec::new();
+                for r in r0..=r1 {
+                    let c0 = if r == r0 { ods[a].1 } else { 0 };
+                    let c1 = if r == r1 { ods[b - 1].1 + 1 } else { k };
+                    let mut tree = eds.row_nmt(r).map_err(|e| gen_err("row_nmt", &e))?;
+                    share_proofs.push(tree.get_range_with_proof(c0 as usize..c1 as usize).1.into());
+                    for col in c0..c1 {
+                        data.push(*eds.share(r, col).unwrap().data());
+                    }
+                }
+                let sp = ShareProof {
+                    data,
+                    namespace_id: ns,
+                    share_proofs,
+                    row_proof: dah.row_proof(r0..=r1).map_err(|e| gen_err("row_proof", &e))?,
+                };
+                match sp.verify(dah.hash()) {
+                    Ok(()) => obs.label("shareproof-verifies"),
+                    Err(e) => {
+                        obs.label("shareproof-does-not-verify");
+                        obs.note(format!("generated share proof does not verify: {e}"));
+                    }
+                }
+                if r1 > r0 {
+                    obs.label("shareproof-multi-row");
+                }
+                rt_proto::<ShareProof, _>(obs, "shareproof", &sp)?;
+                rt_json(obs, "shareproof", &sp)?;
+            }
+
+            // merkle proofs
+            {
+                let mut rng = lv_common::Prng::new(c.merkle_seed);
+                let n = c.merkle_leaves as usize;
+                let leaves: Vec<Vec<u8>> = (0..n).map(|_| { let l = 1 + rng.below(40) as usize; rng.bytes(l) }).collect();
+                for i in [0, pick(s(11), n), n - 1] {
+                    let (p, _root) = MerkleProof::new(i, &leaves).map_err(|e| gen_err("MerkleProof::new", &e))?;
+                    rt_proto::<MerkleProof, _>(obs, "merkleproof", &p)?;
+                    rt_json(obs, "merkleproof", &p)?;
+                }
+            }
+
+            // row namespace data / namespace data
+            {
+                let mut present: Vec<Namespace> = Vec::new();
+                for r in 0..k {
+                    for col in 0..k {
+                        let n = eds.share(r, col).unwrap().namespace();
+                        if !present.contains(&n) {
+                            present.push(n);
+                        }
+                    }
+                }
+                // one absent namespace inside the square's range too
+                if let Some(x) = present.first().and_then(succ) {
+                    if !present.contains(&x) {
+                        present.push(x);
+                    }
+                }
+                for ns in present {
+                    let rows = eds.get_namespace_data(ns, dah, c.height).map_err(|e| gen_err("get_namespace_data", &e))?;
+                    let mut raws: Vec<RawRowNamespaceData> = Vec::new();
+                    for (id, rnd) in &rows {
+                        let mut buf = BytesMut::new();
+                        rnd.encode(&mut buf);
+                        obs.eval(Some(digest_bytes(&buf) ^ tag("rownsdata")));
+                        obs.label("rownsdata-wire");
+                        if rnd.shares.is_empty() {
+                            obs.label("rownsdata-absence");
+                        }
+                        match RowNamespaceData::decode(*id, &buf) {
+                            Ok(y) => {
+                                obs.check(y == *rnd, "C46:rownsdata:proto-roundtrip", || format!("RowNamespaceData of {ns:?} row {}: decode(encode(x)) != x\n x = {rnd:?}\n y = {y:?}", id.row_index()))?;
+                                let mut again = BytesMut::new();
+                                y.encode(&mut again);
+                                obs.check(again == buf, "C46:rownsdata:proto-reencode-unstable", || "RowNamespaceData re-encoding differs".to_string())?;
+                            }
+                            Err(e) => obs.fail("C46:rownsdata:proto-roundtrip", format!("RowNamespaceData of {ns:?} row {}: decode(encode(x)) failed: {e}", id.row_index()))?,
+                        }
+                        if ns == Namespace::PARITY_SHARE {
+                            // parity shares carry no flag in the JSON form: excepted by the statement
+                            obs.label("rownsdata-parity-json-excepted");
+                        } else {
+                            rt_json(obs, "rownsdata", rnd)?;
+                        }
+                        raws.push(RawRowNamespaceData::from(rnd.clone()));
+                    }
+                    let nd = NamespaceData::new(rows.iter().map(|(_, r)| r.clone()).collect());
+                    if ns != Namespace::PARITY_SHARE {
+                        rt_json(obs, "nsdata", &nd)?;
+                    }
+                    let nid = NamespaceDataId::new(ns, c.height).map_err(|e| gen_err("NamespaceDataId", &e))?;
+                    obs.eval(Some(digest_of(&nd) ^ tag("nsdata")));
+                    obs.label("nsdata-wire");
+                    match NamespaceData::from_raw(nid, raws) {
+                        Ok(y) => obs.check(y == nd, "C46:nsdata:proto-roundtrip", || format!("NamespaceData of {ns:?}: from_raw(into raw) != x"))?,
+                        Err(e) => obs.fail("C46:nsdata:proto-roundtrip", format!("NamespaceData of {ns:?}: from_raw(into raw) failed: {e}"))?,
+                    }
+                    let _ = RowNamespaceDataId::new(ns, 0, c.height);
+                }
+            }
+
+            // bad encoding fraud proofs (private fields: built through the wire form, then round-tripped)
+            {
+                let b = &c.befp;
+                let index = pick(b.index, w as usize) as u16;
+                let axis = if b.col_axis { AxisType::Col } else { AxisType::Row };
+                let mut shares = Vec::new();
+                let mut missing = 0;
+                for j in 0..w {
+                    let bit = |seed: u64| (seed.rotate_left(j as u32 / 64 * 7) >> (j % 64)) & 1 == 1;
+                    if !bit(b.present_seed) {
+                        shares.push(RawShareWithProof::default());
+                        missing += 1;
+                        continue;
+                    }
+                    let (r, col) = if b.col_axis { (j, index) } else { (index, j) };
+                    let sh = eds.share(r, col).unwrap();
+                    let ns = if r < k && col < k { sh.namespace() } else { Namespace::PARITY_SHARE };
+                    let ortho = bit(b.ortho_seed);
+                    let proof_axis = if ortho != b.col_axis { AxisType::Col } else { AxisType::Row };
+                    let p: NamespaceProof = match proof_axis {
+                        AxisType::Row => eds.row_nmt(r).unwrap().get_range_with_proof(col as usize..col as usize + 1).1.into(),
+                        AxisType::Col => eds.column_nmt(col).unwrap().get_range_with_proof(r as usize..r as usize + 1).1.into(),
+                    };
+                    let mut data = ns.as_bytes().to_vec();
+                    data.extend_from_slice(sh.as_ref());
+                    shares.push(RawShareWithProof {
+                        data,
+                        proof: Some(p.into()),
+                        proof_axis: proof_axis as i32,
+                    });
+                }
+                let raw = RawBefp {
+                    header_hash: b.header_hash.to_vec(),
+                    height: b.height,
+                    shares,
+                    index: index as u32,
+                    axis: axis as i32,
+                };
+                let raw_bytes = raw.encode_to_vec();
+                let x = BadEncodingFraudProof::decode_vec(&raw_bytes).map_err(|e| Failure::new("C46:befp:valid-rejected", format!("well-formed BEFP wire message rejected: {e}")))?;
+                if missing > 0 {
+                    obs.label("befp-with-missing-shares");
+                }
+                let enc = x.clone().encode_vec();
+                obs.check(enc == raw_bytes, "C46:befp:proto-reencode-unstable", || format!("BEFP: encode(decode(bytes)) != bytes ({} vs {} bytes)", enc.len(), raw_bytes.len()))?;
+                rt_proto::<BadEncodingFraudProof, _>(obs, "befp", &x)?;
+                // JSON form exists on the fraud_proof::Proof wrapper
+                let fp = FraudProofEnum::BadEncoding(x);
+                let sj = serde_json::to_string(&fp).map_err(|e| Failure::new("C46:fraudproof:json-roundtrip", format!("to_string failed: {e}")))?;
+                obs.eval(Some(digest_bytes(sj.as_bytes()) ^ tag("fraudproof")));
+                obs.label("fraudproof-json");
+                match serde_json::from_str::<FraudProofEnum>(&sj) {
+                    Ok(y) => {
+                        obs.check(y == fp, "C46:fraudproof:json-roundtrip", || "fraud proof JSON round trip differs".to_string())?;
+                        obs.check(serde_json::to_string(&y).unwrap_or_default() == sj, "C46:fraudproof:json-reencode-unstable", || "fraud proof JSON re-encoding differs".to_string())?;
+                    }
+                    Err(e) => obs.fail("C46:fraudproof:json-roundtrip", format!("fraud proof JSON does not parse back: {e}"))?,
+                }
+                match serde_json::to_value(&fp).and_then(serde_json::from_value::<FraudProofEnum>) {
+                    Ok(y) => obs.check(y == fp, "C46:fraudproof:json-value-roundtrip", || "fraud proof JSON (Value) round trip differs".to_string())?,
+                    Err(e) => obs.fail("C46:fraudproof:json-value-roundtrip", format!("fraud proof JSON (Value) round trip failed: {e}"))?,
+                }
+            }
+
+            // blobs
+            {
+                let b = &c.blob;
+                let ns = match b.ns_raw {
+                    Some(raw) => Namespace::const_v0(raw),
+                    None => user_ns(b.ns_key.max(1)),
+                };
+                let app = AppVersion::from_u64(b.app as u64).unwrap_or(AppVersion::V3);
+                // share version 1 (signer) exists from app v3 on
+                let signer = if app >= AppVersion::V3 { b.signer.map(AccAddress::from) } else { None };
+                let data = lv_common::Prng::new(b.seed).bytes(b.len as usize);
+                match Blob::new(ns, data, signer, app) {
+                    Err(e) => {
+                        obs.eval(None);
+                        obs.label(if ns.is_reserved() { "blob-new-rejected-reserved-ns" } else { "blob-new-rejected" });
+                        if !ns.is_reserved() && b.len > 0 {
+                            obs.note(format!("Blob::new rejected a non-reserved namespace blob of {} bytes: {e}", b.len));
+                        }
+                    }
+                    Ok(mut blob) => {
+                        blob.index = b.index;
+                        if blob.signer.is_some() {
+                            obs.label("blob-with-signer");
+                        }
+                        if blob.index.is_some() {
+                            obs.label("blob-index-some");
+                        }
+                        if blob.data.is_empty() {
+                            obs.label("blob-empty-data");
+                        }
+                        rt_json(obs, "blob", &blob)?;
+                        // wire form
+                        let raw = celestia_types::blob::RawBlob::from(blob.clone());
+                        let bytes = raw.encode_to_vec();
+                        obs.eval(Some(digest_bytes(&bytes) ^ tag("blob")));
+                        obs.label("blob-proto");
+                        let back = celestia_types::blob::RawBlob::decode(&bytes[..]).map_err(|e| e.to_string()).and_then(|r| Blob::from_raw(r, app).map_err(|e| e.to_string()));
+                        match back {
+                            Ok(y) => {
+                                let mut want = blob.clone();
+                                want.index = None; // not part of the wire form
+                                obs.check(y == want, "C46:blob:proto-roundtrip", || format!("blob wire round trip differs\n x = {want:?}\n y = {y:?}"))?;
+                                let again = celestia_types::blob::RawBlob::from(y).encode_to_vec();
+                                obs.check(again == bytes, "C46:blob:proto-reencode-unstable", || "blob re-encoding differs".to_string())?;
+                            }
+                            Err(e) => obs.fail("C46:blob:proto-roundtrip", format!("blob wire round trip failed: {e}\n x = {blob:?}"))?,
+                        }
+                    }
+                }
+            }
+            Ok(())
+        },
+    );
 }
